@@ -55,6 +55,7 @@ func runC13(e *Engine, g G, o RunOpt) RunInfo {
 	if sc.TLS {
 		sc.Client.Insecure = false
 		sc.Client.TLS = TLSCfgRoots
+		sc.Client.TLSMax12 = true
 	}
 	nr := g.Range("rounds", 1, 4)
 	permanent := false
@@ -81,7 +82,13 @@ func runC13(e *Engine, g G, o RunOpt) RunInfo {
 			rd.Attempts = append(rd.Attempts, kinds[k])
 		}
 		if g.Pct("permanent", 12) {
-			rd.Attempts = append(rd.Attempts, "permanent-auth")
+			if sc.TLS && g.Bool("permanent-kind") {
+				// the server answers the TLS handshake with an alert (it insists on a protocol version the
+				// application does not allow): a verdict on the TLS policy, not a lost connection
+				rd.Attempts = append(rd.Attempts, "permanent-tls-alert")
+			} else {
+				rd.Attempts = append(rd.Attempts, "permanent-auth")
+			}
 			permanent = true
 		} else {
 			rd.Attempts = append(rd.Attempts, "ok")
@@ -149,6 +156,8 @@ func runC13(e *Engine, g G, o RunOpt) RunInfo {
 					s.Resume = ResumeClose
 				case "permanent-auth":
 					s.AuthReply = AuthFailure
+				case "permanent-tls-alert":
+					s.TLS13Only = true
 				}
 				scripts = append(scripts, s)
 			}
@@ -309,7 +318,7 @@ func runC13(e *Engine, g G, o RunOpt) RunInfo {
 				stopEarly = true
 				break
 			}
-			perm := rd.Attempts[len(rd.Attempts)-1] == "permanent-auth"
+			perm := strings.HasPrefix(rd.Attempts[len(rd.Attempts)-1], "permanent-")
 			budget := time.Duration(len(rd.Attempts)+1)*(180*time.Second+3*time.Duration(sc.Client.ConnectTimeout)*time.Second) + 60*time.Second
 			if perm {
 				// the loop must end: wait for the failing attempt, then make sure nothing else is tried
